@@ -177,6 +177,27 @@ Section Aero.
   Definition total_lift_coeff (CL1 CL0 : T) : T := CL1 +! CL0.
 End Aero.
 
+(* ---------------- the chain of VLMStates up to the linear system, one surface ----------------
+   def_mesh, alpha, beta, v  |->  AIC matrix and right-hand side, through CollocationPoints, VortexMesh, GetVectors,
+   EvalVelMtx, VLMGeometry (normals), ConvertVelocity, VLMMtxRHSComp, wired as aerodynamics/states.py wires them
+   (flat panel index p = i * npy + j) *)
+Section Chain.
+  Context {T : Type} {K : Ops T}.
+  Variables (npx npy : nat) (sym left : bool).
+  Definition chain_vectors (mesh : nat -> nat -> nat -> T) (e i j d : nat) : T :=
+    get_vectors (fun e d => coll_pts mesh (e / npy)%nat (e mod npy)%nat d)
+                (vortex_mesh npx npy sym false left o0 o0 mesh) e i j d.
+  Definition chain_velm (alpha_deg : T) (mesh : nat -> nat -> nat -> T) (p q d : nat) : T :=
+    vel_mtx npx npy sym false (negb left) alpha_deg (chain_vectors mesh) p (q / npy)%nat (q mod npy)%nat d.
+  Definition chain_normals (mesh : nat -> nat -> nat -> T) (p d : nat) : T := g_normals mesh (p / npy)%nat (p mod npy)%nat d.
+  Definition chain_aic (alpha_deg : T) (mesh : nat -> nat -> nat -> T) (p q : nat) : T :=
+    aic_mtx (chain_velm alpha_deg mesh) (chain_normals mesh) p q.
+  Definition chain_rhs (alpha_deg beta_deg v : T) (mesh : nat -> nat -> nat -> T) (p : nat) : T :=
+    aic_rhs (fun p d => freestream alpha_deg beta_deg v d) (chain_normals mesh) p.
+  Definition chain_residual (alpha_deg beta_deg v : T) (mesh : nat -> nat -> nat -> T) (circ : nat -> T) (p : nat) : T :=
+    solve_residual (npx * npy) (chain_aic alpha_deg mesh) (chain_rhs alpha_deg beta_deg v mesh) circ p.
+End Chain.
+
 Section Flat.
   Context {T : Type} {K : Ops T}.
   (* concatenation of per-surface panel arrays into the global flat panel index (ind_1 / ind_2 offsets):
